@@ -185,6 +185,20 @@ def check(run, repo):
                       'formula only (no NASA arrays leak from the previous row)')
     else:
         run.fail('REF.rows', 'excel.read_excel', 'sheet 2', 'unexpected result %s' % show(out, 120), m, fn)
+    # --- sheet 2b: rows that share one formula and add their own element.X cells: each row owns its composition ----
+    rows = [
+        [('name', 'H2O(S)'), ('formula', 'H2O'), ('element.Pt', a('nPt'))],
+        [('name', 'H2O'), ('formula', 'H2O'), ('element.Pt', NAN)],
+        [('name', 'H2O(T)'), ('formula', 'H2O'), ('element.Pt', a('mPt'))],
+    ]
+    I, out, m, fn = run_reader(repo, rows)
+    if isinstance(out, ListV) and len(out) == 3:
+        for rec, nm, extra, lab in zip(out.items, ('H2O(S)', 'H2O', 'H2O(T)'), ({'Pt': a('nPt')}, {}, {'Pt': a('mPt')}),
+                                      ('first row', 'second row, element cell empty', 'third row')):
+            expect_record(run, m, fn, I, rec, {'name': nm, 'elements': dict({'H': C(2), 'O': C(1)}, **extra)},
+                          'same formula in several rows + element.X: ' + lab)
+    else:
+        run.fail('REF.rows', 'excel.read_excel', 'sheet 2b', 'unexpected result %s' % show(out, 120), m, fn)
     # --- sheet 3: model presets and per-mode models ----------------------------------------------------------------
     I0 = Interp(repo)
     from ..xlate import Frame
